@@ -126,7 +126,7 @@ class Registry:
         d = c.loops_decl.get(k)
         if d is None:
             return None
-        out = {'modifies': tuple(d.get('modifies', ())), 'elem': d.get('elem', 'bytes')}
+        out = {'modifies': tuple(d.get('modifies', ())), 'elem': d.get('elem', 'bytes'), 'lists': dict(d.get('lists', {}))}
         for n in ('inv', 'variant'):
             f = d.get(n)
             if f is not None:
